@@ -438,6 +438,10 @@ def check(ctx: Ctx) -> None:
                                      construct="decode before liveness test")
         ob.require(nd >= 2, f"{nd} payload decoding sites in _local_receive (floor 2)")
 
+    # the receiver thread is the only reader of the frame stream: the worker's fd 0 / sys.stdin no longer point at it
+    from .C06 import check_stdio_typestate
+    check_stdio_typestate(ctx, "C02.o")
+
     # items sent by the worker after Gateway.exit() are still delivered: the socket transport half-closes like a pipe
     from .C16 import check_socket_halfclose
     check_socket_halfclose(ctx, "C02.n")
